@@ -182,10 +182,7 @@ func TestVerif_C08_Close(t *testing.T) {
 		runOp := func(op string) {
 			switch op {
 			case "gather":
-				if a.GatherCandidates() == nil {
-					// remember the cycle's done channel: Close waits for the latest gathering goroutine
-					_ = a.loop.Run(a.loop, nil2(func() { lastGatherDone = a.gatherCandidateDone }))
-				}
+				_ = a.GatherCandidates()
 				c11Jitter(rapid.IntRange(0, 20).Draw(rt, "gatherJitter"))
 			case "addRemote":
 				_ = a.AddRemoteCandidate(s.epCandidate(0, soloEpSpec{Typ: CandidateTypeHost}))
@@ -354,7 +351,8 @@ func TestVerif_C08_Close(t *testing.T) {
 		}
 		logAtClose := s.w.logLen()
 		// Close waits for the latest gathering cycle (cancelled or not) to wind down before it returns
-		if lastGatherDone != nil {
+		// (read after the loop has ended: the task loop was the only writer and Close has returned)
+		if lastGatherDone = a.gatherCandidateDone; lastGatherDone != nil {
 			select {
 			case <-lastGatherDone:
 			default:
